@@ -1059,7 +1059,7 @@ def np_dot(eng, st, args, kw, node):
         A = Mat(A0.shape, lambda x, y, ta=ta: z3.Select(z3.Select(ta, x), y), REAL)
         B = Mat(B0.shape, lambda x, y, tb=tb: z3.Select(z3.Select(tb, x), y), REAL)
         n0, n1, n2 = to_z3(A.shape[0], INT), to_z3(A.shape[1], INT), to_z3(B.shape[1], INT)
-        Pt = fresh('dot', A2R)
+        Pt = core.mdot(ta, tb)       # the product as a value (congruence), plus its support contract below
         wit = z3.Function('dotwit!%d' % next(core._fresh), INT, INT, INT)
         x, y, zq = z3.Ints('x!dt y!dt z!dt')
         nonneg = z3.And(z3.ForAll([x, zq], z3.Implies(z3.And(x >= 0, x < n0, zq >= 0, zq < n1), to_z3(A.fn(x, zq), REAL) >= 0)),
